@@ -70,6 +70,36 @@ claim('C15', 'other',
       'Forwarding: every API template executed against a synthetic vtable of uninterpreted slots reaches the slot of the virtual prescribed by the naming rule with the arguments in order (class-independent).',
       STRUCT_NOTE, 'symbolic execution of LLVM IR, exhaustive over (class, API) pairs; uninterpreted vtable slots for forwarding', 'DESIGN.md §4 C15')
 
+claim('C10', 'other',
+      'Every evaluator override of every catalogue class (both scalar types) executed from the object state in which registered parameters are named symbols and every member that any method of the class writes is an independent fresh symbol: '
+      'the merged result may mention only parameters/vector contents/arguments (else a two-copy z3 query decides equality), the final value of every registered scalar and vector parameter equals its initial symbol, and no store leaves the object. '
+      'With the registry isolation of C12 this gives history independence over any interleaving.',
+      STRUCT_NOTE + ' Bit-for-bit reproducibility assumes every IR operation is a deterministic function of its operand bits (fixed rounding mode).', 'symbolic execution of LLVM IR from an arbitrary object state (frame + self-composition)', 'DESIGN.md §4 C10')
+claim('C12', 'other',
+      'One API step from a registry state with K (2 quick, 3 thorough) entries whose handle strings are pairwise-distinct SYMBOLS mapped to live objects built by the real masa_init on the IR: '
+      'masa_select_mms(H), masa_init(H,name) (fresh default instance mapped at H and selected, nothing else written), masa_set_param (stores only inside the selected object), masa_list_mms/get_name, and independence of the double and long double registries; H symbolic covers every registered and every new handle.',
+      STRUCT_NOTE + ' K bounds the symbolic shape only; std::map is modelled for any K.', 'symbolic execution of LLVM IR over a symbolic finite-map registry (inductive one-step)', 'DESIGN.md §4 C12')
+claim('C13', 'model_checking',
+      'CBMC 6.11 (C++ front end) on the VERBATIM src/masa_map.cpp with a bounded std::string stub: for every string of length <= 6 (8 thorough) over all non-NUL byte values masa_map(s) equals the reference filter(lowercase(s), c not in {-,blank}); --unwinding-assertions; WITNESS twin must fail. '
+      'Engine A: masa_init(H, NAME) with NAME symbolic resolves to the first catalogue entry equal to normalise(NAME), no match is fatal with the registry untouched, the handle key is used verbatim.',
+      'Bounded: strings longer than the bound are outside the claim. Trusted: CBMC C++ front end with -DSWIG, the 60-line string stub (find/replace/operator[] per the standard), C-locale tolower; Engine A contract models.', 'CBMC bounded model checking of the real translation unit + symbolic execution of masa_init', 'DESIGN.md §4 C13')
+claim('C16', 'other',
+      'In the default (exit) build and in a -DMASA_EXCEPTIONS -fexceptions build of the IR: every solution-dependent API template (130 per scalar type) called with symbolic arguments before any masa_init, masa_select_mms of an unknown (symbolic) handle and masa_init of an unknown (symbolic) solution name from a K=2 symbolic registry: '
+      'the only path prints MASA FATAL ERROR, then reaches exit(1) / throw of int 1, with no store into pre-existing memory and the registry snapshot unchanged.',
+      STRUCT_NOTE + ' Cleanup code on unwind edges is assumed not to touch the registry.', 'symbolic execution of LLVM IR in two build configurations (event-trace and store-set checking)', 'DESIGN.md §4 C16')
+claim('C17', 'other',
+      'Every extern "C" definition of cmasa.cpp executed with symbolic arguments against UNINTERPRETED MASA::masa_*<double> templates: exactly one call of the template the naming rule prescribes with the arguments in order, the result (value or status) is the callee\'s, '
+      'masa_get_name leaves the callee\'s string in the caller buffer, masa_set_array/masa_get_array move length and contents for every length 0..4 (8 thorough); wrappers returning a constant are compared with the real template on every catalogue class.',
+      STRUCT_NOTE, 'symbolic execution of LLVM IR with uninterpreted callees (translation-validation style term equality)', 'DESIGN.md §4 C17')
+claim('C18', 'other',
+      'z3 bit-vector model of the System V AMD64 argument/result slots: for each of the 92 bind(C,name=...) interfaces of masa.f90 the caller writes its arguments per the Fortran declaration and the callee reads per the C definition (IR signature cross-checked with the source signature); unsat = every parameter observes the intended argument of the same kind and the result register class matches. '
+      'Header: every extern declaration of masa.h.in equals its definition; masa.i wraps exactly masa.h. A deliberately wrong binding is the witness.',
+      'Fortran is parsed, not compiled (no Fortran front end in the image): an interface outside the parsed subset fails the run. A SUBROUTINE bound to an int-returning C function is accepted (status discarded, register compatible).', 'SMT (QF_BV) model of the calling convention per binding', 'DESIGN.md §4 C18')
+claim('C19', 'other',
+      'Engine A memory model (undef tracking, region lifetimes, container index checks, heap ownership) over: static initialisation and all 37 constructors, masa_init from a symbolic registry (allocations balance to exactly one live instance per handle, replaced instance freed), printid/list/display, the registry destructor, '
+      'every documented evaluator of every class with symbolic arguments and parameters (no read of a never-written member), vector parameters of every length 0..4, the C array interface of length 0..4 through the real callee. Findings replay under valgrind.',
+      STRUCT_NOTE + ' UB classes are those the IR shows (see evidence assumptions); libstdc++ internals and allocation failure are outside.', 'symbolic execution of LLVM IR with an explicit memory/ownership model', 'DESIGN.md §4 C19')
+
 ALL = ['C%02d' % i for i in range(1, 21)]
 
 
